@@ -357,4 +357,12 @@ theorem constructProof_norm (t : Node) (hf : Fits t) (key : Bytes) :
           · exact norm_of_bounds lhh [] ht sz h1 h2 (fl.hk lhh hlh) (by simp)
         · simp at e
 
+/-- a leaf `(A, B)` with `|A| ≤ 32`, `|B| ≤ 32` and an "inner node" of height 0 and size 1 over the children
+`A`, `B` have the same encoding: `LeafNode` and `InnerNode` share their wire shape. -/
+theorem innerEnc_eq_leafEnc (a b : Bytes) (ha : a.length ≤ 32) (hb : b.length ≤ 32) :
+    innerEnc a b 0 1 = leafEnc a b := by
+  have e1 : last32 a = a := by simp [last32]; omega
+  have e2 : last32 b = b := by simp [last32]; omega
+  simp [innerEnc, leafEnc, e1, e2]
+
 end C03
